@@ -304,7 +304,7 @@ func vfC18K2P(kappas []float64) {
 
 // H_C18_k2p: K80: eigen system against the textbook Q (transition/transversion ratio kappa); P(t) rows sum to 1, reversible, P(0)=I, analytic formula = eigen form.
 // bounds: kappa in {1/2, 1, 2, 4}; t symbolic in [1e-8, 100] plus t = 0
-// outside: other kappa (thorough twin); entries in [0,1] (needs a transcendental relation between the two exponentials: not applicable); IEEE rounding is outside the claim: floats are exact reals
+// outside: other kappa (H_C18_k2p_symkappa: symbolic kappa); entries in [0,1] (needs a transcendental relation between the two exponentials: not applicable); IEEE rounding is outside the claim: floats are exact reals
 func H_C18_k2p() {
 	vfC18K2P(vfC18Kappas)
 }
@@ -425,4 +425,41 @@ func H_C18_f84_semigroup() {
 	m := NewF84Model()
 	m.InitModel(kappa, pi[0], pi[1], pi[2], pi[3])
 	vfC18CheckSemigroupEigen(vfC18Get(m), vfC18T(), vfC18T())
+}
+
+// ------------------------------------------------------------------------- symbolic kappa twins
+
+func vfC18Kappa() float64 {
+	k := nondetFloat()
+	assume(k >= 0.01 && k <= 100)
+	return k
+}
+
+// H_C18_k2p_symkappa: as H_C18_k2p with a symbolic transition/transversion ratio.
+// bounds: kappa symbolic in [0.01, 100]; t symbolic in [1e-8, 100] plus t = 0
+// outside: entries in [0,1] (not applicable, see H_C18_k2p); IEEE rounding is outside the claim: floats are exact reals
+//verif: timeout=60000
+func H_C18_k2p_symkappa() {
+	kappa := vfC18Kappa()
+	m := NewK2PModel()
+	m.InitModel(kappa)
+	s := vfC18Get(m)
+	vfC18CheckSystem(s, vfC18K2PQ(kappa), vfC18Uniform)
+	vfC18CheckP0(m)
+	vfC18CheckP(m, s, vfC18Uniform, vfC18T(), false)
+}
+
+// H_C18_f84_symkappa: as H_C18_f84 with a symbolic kappa (frequencies at the sample points).
+// bounds: kappa symbolic in [0.01, 100]; base frequencies in {uniform, (1/2,1/4,1/8,1/8), (1/8,1/8,1/4,1/2)}; t symbolic in [1e-8, 100] plus t = 0
+// outside: symbolic frequencies (out of reach of the solvers, DESIGN.md §2.4); IEEE rounding is outside the claim: floats are exact reals
+//verif: tier=thorough timeout=60000
+func H_C18_f84_symkappa() {
+	kappa := vfC18Kappa()
+	pi := vfC18Pis[nondetRange(0, len(vfC18Pis)-1)]
+	m := NewF84Model()
+	m.InitModel(kappa, pi[0], pi[1], pi[2], pi[3])
+	s := vfC18Get(m)
+	vfC18CheckSystem(s, vfC18F84Q(kappa, pi), pi)
+	vfC18CheckP0(m)
+	vfC18CheckP(m, s, pi, vfC18T(), false)
 }
